@@ -75,6 +75,14 @@ def gen_schedule(rng, nq, sequential):
                     sched.append(["next", j])
                 sched.append([{"partial_close": "close", "partial_drop": "drop", "partial_park": "park"}[how], j])
         return sched
+    if rng.random() < 0.15:
+        # every iterator is created first, then they are run one after the other from start to end: the evaluations do
+        # not overlap (a created iterator has not begun anything)
+        k = rng.randint(2, 3)
+        sched = [["start", rng.randrange(nq)] for _ in range(k)]
+        for j in rng.sample(range(k), k):
+            sched.append(["drain", j])
+        return sched
     live = []
     n_it = 0
     for _ in range(rng.randint(3, 12)):
@@ -301,6 +309,7 @@ def run(spec, ctx):
     shared_live = False
     reevaluated_rule = False
     started_q = set()
+    under_way = set()
     raised_mode = False
     problems = []
     for step in spec["schedule"]:
@@ -317,13 +326,17 @@ def run(spec, ctx):
             C["iterators_started"] += 1
             live_now = [j for j in its if j not in closed]
             max_live = max(max_live, len(live_now))
-            owners_live = [owner[j] for j in live_now]
-            if len(live_now) >= 2 and (spec["pattern"] in SHARING or len(set(owners_live)) < len(owners_live)):
-                shared_live = True
         elif op in ("next", "drain"):
             j = step[1]
             if j not in its or j in closed:
                 continue
+            # evaluate() is lazy: an iterator that was created but never advanced has not begun its evaluation.  Two
+            # evaluations overlap from the moment both have been advanced and neither has ended.
+            under_way.add(j)
+            under_way_now = [i for i in under_way if i not in closed]
+            owners_now = [owner[i] for i in under_way_now]
+            if len(under_way_now) >= 2 and (spec["pattern"] in SHARING or len(set(owners_now)) < len(owners_now)):
+                shared_live = True
             try:
                 if op == "next":
                     got[j].append(key_of(next(its[j]), idmap, m))
